@@ -650,13 +650,13 @@ def classify(ds, base, prog, probs, res):
         comp = "multi-index"
     elif base["pcols"] and nsel == 0 and what in ("columns", "error"):
         comp = "empty-selection-partition-columns"
-    elif any(n in base["pcols"] for n in inames):
-        comp = "partition-index"
     elif any(k in F.NULLABLE_INT or k == "boolean" for k in ikinds) and "NAType" in msg:
         comp = "nullable-index"
     elif (rd[0] == "iter" and rd[3] is not None and "NAType" in msg
           and any(c["kind"] == "cat_int" and c["nulls"] != "none" and c["name"] not in rd[3] for c in ds["extra"])):
         comp = "categories-arg-int-labels"
+    elif any(n in base["pcols"] for n in inames):
+        comp = "partition-index"
     return {"component": comp, "terminal": rd[0], "what": what, "scheme": ds["scheme"], "partitioned": bool(base["pcols"]),
             "open": ds["open"], "selected_row_groups": nsel, "nonempty_selected": nonempty, "index_names": len(inames),
             "index_kind": idx["kind"], "index_column_kinds": ikinds, "error": (res[1] if res[0] == "fail" else None), "nops": len(prog["ops"])}
